@@ -46,6 +46,12 @@ Definition rl_inc (c : rl_conf) (now : Z) (s : rl_state) (a : bytes) : rl_state 
 (** [remove]. *)
 Definition rl_remove (s : rl_state) (a : bytes) : rl_state := delete a s.
 
+(** Which of the two addresses handleLogin has at hand is used as the
+    limiter's key: the TCP peer ([remoteIP], from [r.RemoteAddr]) or the
+    address written to the log ([logIP]: the proxy-header address when the
+    header names an address inside trusted_proxies, else the peer). *)
+Inductive addr_choice := UsePeer | UseLog.
+
 (** One login attempt as handleLogin + newCookie treat it.  [a_now] is the
     instant read by [check], [a_now2] the instant read by [inc] after the
     password has been evaluated ([a_now <= a_now2]); [a_ok] says whether
